@@ -80,6 +80,12 @@ def step(op, s, k):
             base = "http://t.example" + s.rpartition("#")[2]          # depends on the string only: every thread meets the same two objects
             a1, a2 = URL(base + "#" + s.rpartition("#")[2]), URL(base + "/#" + s.rpartition("#")[2])
             return repr((hash(a1) == hash(a2), a1 == a2, a1 < a2, a1 <= a2, hash(a1) == hash(URL(str(a1)))))
+        if op == 12:
+            # a derivation from the SHARED parsed object while other threads read it for the first time (a derivation must not walk or
+            # copy the parent's per-object cache while it is being filled)
+            v = u.with_fragment("t%d" % (k % 3))
+            w = u.with_query("n=%d" % (k % 2))
+            return str(v) + repr(v.raw_fragment) + str(w) + repr(w.raw_host)
         if op == 9:
             v = URL(s, encoded=True)
         else:
@@ -93,7 +99,7 @@ def step(op, s, k):
 def program(seed, t, rounds, per_round):
     r = random.Random(seed * 7919 + t)
     # ops 9 and 10 get extra weight on the empty-host strings (i % 4 == 3)
-    return [[((r.choice([9, 10, 9, 10, 1, 5]) if (i % 4 == 3 and r.random() < 0.8) else (11 if (i % 4 == 1 and r.random() < 0.7) else r.randrange(12))), i, r.randrange(1000))
+    return [[((r.choice([9, 10, 9, 10, 1, 5]) if (i % 4 == 3 and r.random() < 0.8) else (11 if (i % 4 == 1 and r.random() < 0.7) else (r.choice([12, 0, 12, 5, 0]) if (i % 4 == 2 and r.random() < 0.8) else r.randrange(13)))), i, r.randrange(1000))
              for i in range(per_round)] for _ in range(rounds)]
 
 
